@@ -328,7 +328,11 @@ def case_optimize_twice(case):
     for _ in range(2):
         with warnings.catch_warnings():
             warnings.simplefilter("ignore")
-            res = optimize(scheme, verbose=False, raise_exception=True)
+            try:
+                res = optimize(scheme, verbose=False, raise_exception=True)
+            except (ValueError, FloatingPointError, np.linalg.LinAlgError) as e:
+                # an unbounded method can drive the harness model into overflow: no result to compare
+                return core.ood("fit-raised-" + type(e).__name__)
         fps.append(result_fingerprint(res))
         changed = diff_snapshots(before, snapshot_scheme(scheme))
         if changed:
@@ -341,6 +345,8 @@ def case_optimize_twice(case):
 
 
 from vf.checks.c10_kernels import case_kernel  # noqa: E402
+
+WATCHDOG = {"optimize_twice": 90}  # fits can spin inside scipy/numpy on overflowing input (C15 known finding)
 
 CASE_FUNCS = {"histories": case_histories, "history": case_history, "optimize_twice": case_optimize_twice,
               "kernel": case_kernel, "builtin_histories": case_builtin_histories, "builtin_history": case_builtin_history}  # fmt: skip
